@@ -39,6 +39,8 @@ static std::vector<Conf> menu()
   m.push_back({"harmonic-k-staged", d + "harmonic {\n colvars d\n centers 1.5\n forceConstant 2.0\n targetForceConstant 6.0\n targetNumSteps 2\n targetNumStages 2\n}\n", false, false, 0});
   m.push_back({"walls-k-moving", d + "harmonicWalls {\n colvars d\n lowerWalls 1.4\n upperWalls 1.9\n forceConstant 2.0\n targetForceConstant 5.0\n targetNumSteps 3\n outputAccumulatedWork on\n}\n", false, false, 0});
   m.push_back({"linear", d + "linear {\n colvars d\n centers 1.0\n forceConstant 1.5\n}\n", false, false, 0});
+  m.push_back({"linear-k-staged", d + "linear {\n colvars d\n centers 1.0\n forceConstant 1.5\n targetForceConstant 4.5\n targetNumSteps 1\n targetNumStages 2\n}\n", false, false, 0});
+  m.push_back({"linear-centers-staged", d + "linear {\n colvars d\n centers 1.0\n targetCenters 3.0\n targetNumSteps 1\n targetNumStages 2\n forceConstant 1.5\n}\n", false, false, 0});
   m.push_back({"abmd", d + "abmd {\n colvars d\n forceConstant 3.0\n stoppingValue 2.5\n}\n", false, false, 0});
   m.push_back({"alb", d + "ALB {\n colvars d\n centers 1.5\n updateFrequency 4\n forceRange 3.0\n}\n", false, false, 300});
   m.push_back({"histogram", d + "histogram {\n colvars d\n}\n", false, false, 0});
